@@ -99,24 +99,29 @@ fn ref_trim<'a>(mut p: Parser<'a>, alts: &[&str], end: bool) -> (usize, Parser<'
         }
         break;
     }
-    (0, p)
+    // like Parser::trim_start_matches / trim_end_matches, the trim forms always leave the parser's direction
+    // at their own end, whether or not anything was removed (position-neutral skip)
+    (0, if end { p.skip_back(0) } else { p.skip(0) })
 }
 fn run(id: usize, branches: &[&[&str]], k: &dyn for<'a> Fn(Parser<'a>) -> (usize, Parser<'a>), r: &dyn for<'a> Fn(Parser<'a>) -> (usize, Parser<'a>)) {
     let mut evals = 0u64; let mut matched = 0u64; let mut first: Option<String> = None; let mut bad = 0u64;
     for s in inputs(branches) {
-        for base in [0usize, 5] {
+        for (base, from_end) in [(0usize, false), (5, false), (0, true), (5, true)] {
             let p = if base == 0 { Parser::new(&s) } else { Parser::with_start_offset(&s, base) };
+            // the parser's last mutation came from the other end: position-neutral, direction FromEnd
+            let p = if from_end { p.skip_back(0) } else { p };
             let (kb, kp) = k(p);
             let (rb, rp) = r(p);
             evals += 1;
             let default_branch = rb == branches.len();
             if !default_branch || rp.remainder().len() != s.len() { matched += 1; }
             let same = kb == rb && kp.remainder() == rp.remainder() && kp.start_offset() == rp.start_offset() && kp.end_offset() == rp.end_offset()
+                && kp.parse_direction() == rp.parse_direction() && kp == rp
                 && (!default_branch || kp == p);
             if !same {
                 bad += 1;
                 if first.is_none() {
-                    first = Some(format!("input={:?} base={} macro=(branch {}, rem {:?}, {}..{}) reference=(branch {}, rem {:?}, {}..{}) literals={:?}", s, base, kb, kp.remainder(), kp.start_offset(), kp.end_offset(), rb, rp.remainder(), rp.start_offset(), rp.end_offset(), branches));
+                    first = Some(format!("input={:?} base={} from_end={} macro=(branch {}, rem {:?}, {}..{}, {:?}) reference=(branch {}, rem {:?}, {}..{}, {:?}) literals={:?}", s, base, from_end, kb, kp.remainder(), kp.start_offset(), kp.end_offset(), kp.parse_direction(), rb, rp.remainder(), rp.start_offset(), rp.end_offset(), rp.parse_direction(), branches));
                 }
             }
         }
@@ -250,7 +255,7 @@ def run(out, tier, seed):
             if bad:
                 out.fail("differs:%s:%s" % (p.method, "+".join(p.tags())), "parser_method!", "program %d: %s; %s | first: %s" % (pid, p.method, " , ".join(" | ".join(s for s, _ in b) for b in p.branches).replace("\n", "\\n"), f[5][:500]), "%d of %d evaluations differ" % (bad, ev), "the equivalent chain of Parser method calls on the rustc-decoded literals", "generated-program", cmd=b, source=src)
     out.add_counts("generated-programs", evals, "c18-programs", matched_programs, samples,
-                   rule="one evaluation = one parser_method! invocation on one input/start-offset compared (branch taken, remainder, start_offset, end_offset; default branch: parser unchanged) with the reference chain of Parser::strip_prefix/strip_suffix/find_skip/rfind_skip calls over the same literal tokens in expression position; distinct_nontrivial = number of distinct generated programs in which at least one input matched a literal",
-                   exhaustive="every literal form (plain, each escape kind, \\u{..} of 1-6 digits and all UTF-8 lengths, line continuations followed by spaces/tab/newlines/NBSP/U+3000/end, raw strings with 0-2 hashes, multi-byte text, empty, concat! incl. nested) alone x 6 methods, prefix-of-each-other alternative sets, + seeded random programs up to %d (1-3 branches x 1-3 alternatives); inputs: all strings of <= 4 chars over <= 3 literal characters + 'z' and <= 3 concatenated literals, from Parser::new and with_start_offset(_, 5)" % len(progs),
+                   rule="one evaluation = one parser_method! invocation on one input/start-offset compared (branch taken, remainder, start_offset, end_offset, parse_direction, Parser equality; default branch: parser unchanged) with the reference chain of Parser::strip_prefix/strip_suffix/find_skip/rfind_skip calls over the same literal tokens in expression position; distinct_nontrivial = number of distinct generated programs in which at least one input matched a literal",
+                   exhaustive="every literal form (plain, each escape kind, \\u{..} of 1-6 digits and all UTF-8 lengths, line continuations followed by spaces/tab/newlines/NBSP/U+3000/end, raw strings with 0-2 hashes, multi-byte text, empty, concat! incl. nested) alone x 6 methods, prefix-of-each-other alternative sets, + seeded random programs up to %d (1-3 branches x 1-3 alternatives); inputs: all strings of <= 4 chars over <= 3 literal characters + 'z' and <= 3 concatenated literals, from Parser::new and with_start_offset(_, 5), each also after a position-neutral skip_back(0) (direction FromEnd)" % len(progs),
                    hist=hist)
     out.counters["programs_generated"] = len(progs)
